@@ -4,6 +4,7 @@ import (
 	"bytes"
 	"context"
 	"encoding/json"
+	"errors"
 	"fmt"
 	"strings"
 
@@ -21,6 +22,14 @@ type List struct {
 	// Used to avoid the possibility of infinite recursion when inspecting.
 	// Similar to the usage of Py_ReprEnter in CPython.
 	inspectActive bool
+
+	// Used in the same way while comparing: a list can contain itself, and a
+	// comparison that comes back to a list it is already comparing treats
+	// that occurrence as equal instead of recursing forever.
+	compareActive bool
+
+	// Likewise while converting to Go values or JSON.
+	convertActive bool
 }
 
 func (ls *List) Type() Type {
@@ -416,6 +425,11 @@ func (ls *List) Reverse() {
 }
 
 func (ls *List) Interface() interface{} {
+	if ls.convertActive {
+		return nil // the list contains itself: the inner occurrence becomes nil
+	}
+	ls.convertActive = true
+	defer func() { ls.convertActive = false }()
 	items := make([]interface{}, 0, len(ls.items))
 	for _, item := range ls.items {
 		items = append(items, item.Interface())
@@ -437,6 +451,11 @@ func (ls *List) Compare(other Object) (int, error) {
 	} else if len(ls.items) < len(otherList.items) {
 		return -1, nil
 	}
+	if ls.compareActive {
+		return 0, nil
+	}
+	ls.compareActive = true
+	defer func() { ls.compareActive = false }()
 	for i := 0; i < len(ls.items); i++ {
 		comparable, ok := ls.items[i].(Comparable)
 		if !ok {
@@ -461,6 +480,11 @@ func (ls *List) Equals(other Object) Object {
 	if len(ls.items) != len(otherList.items) {
 		return False
 	}
+	if ls.compareActive {
+		return True
+	}
+	ls.compareActive = true
+	defer func() { ls.compareActive = false }()
 	for i, v := range ls.items {
 		otherV := otherList.items[i]
 		if !Equals(v, otherV) {
@@ -596,6 +620,11 @@ func (ls *List) Cost() int {
 }
 
 func (ls *List) MarshalJSON() ([]byte, error) {
+	if ls.convertActive {
+		return nil, errors.New("value error: cannot marshal a list that contains itself")
+	}
+	ls.convertActive = true
+	defer func() { ls.convertActive = false }()
 	return json.Marshal(ls.items)
 }
 
